@@ -13,9 +13,31 @@ fn squash(s: &str) -> String {
 
 struct V {
     out: Vec<String>,
+    /// names bound to the shard write guard (`let mut <name> = ….write()`) and to a vacant map entry
+    /// (`Entry::Vacant(<name>)`), whatever they are called
+    guards: Vec<String>,
+    vacants: Vec<String>,
 }
 
 impl<'ast> Visit<'ast> for V {
+    fn visit_local(&mut self, l: &'ast syn::Local) {
+        if let (syn::Pat::Ident(p), Some(init)) = (&l.pat, &l.init) {
+            let it = squash(&toks(&*init.expr));
+            if it.starts_with("self.map.shards()") && it.ends_with(".write()") {
+                self.guards.push(p.ident.to_string());
+            }
+        }
+        syn::visit::visit_local(self, l);
+    }
+    fn visit_arm(&mut self, a: &'ast syn::Arm) {
+        let pt = squash(&toks(&a.pat));
+        if let Some(rest) = pt.strip_prefix("Entry::Vacant(") {
+            if let Some(name) = rest.strip_suffix(")") {
+                self.vacants.push(name.trim_start_matches("mut").to_string());
+            }
+        }
+        syn::visit::visit_arm(self, a);
+    }
     fn visit_expr_method_call(&mut self, m: &'ast syn::ExprMethodCall) {
         // children first: evaluation order
         syn::visit::visit_expr_method_call(self, m);
@@ -29,13 +51,13 @@ impl<'ast> Visit<'ast> for V {
             "store_str" if recv == "self.arena" => Some(".store"),
             "fetch_add" if recv == "self.key" => Some(".keyFetch"),
             "insert" if recv == "self.strings" => Some(".stringsInsert"),
-            "insert_in_slot" | "insert" if recv == "shard" || recv == "v" => Some(".mapInsert"),
+            "insert_in_slot" | "insert" if self.guards.contains(&recv) || self.vacants.contains(&recv) => Some(".mapInsert"),
             // anything else that touches the two maps, the counter or the arena is not understood
             _ if (recv.starts_with("self.map") && !matches!(name.as_str(), "hasher" | "hash_one" | "determine_shard" | "shards" | "get" | "unwrap"))
                 || recv.starts_with("self.strings")
                 || recv.starts_with("self.key")
                 || recv.starts_with("self.arena")
-                || (recv == "shard" || recv == "v") =>
+                || ((self.guards.contains(&recv) || self.vacants.contains(&recv)) && name != "find_or_find_insert_slot") =>
             {
                 self.out.push(format!("(.other {})", lean::s(&format!("{recv}.{name}"))));
                 None
@@ -64,7 +86,7 @@ fn effects_of(file: &syn::File, name: &str) -> Vec<String> {
             for it in &im.items {
                 if let syn::ImplItem::Fn(f) = it {
                     if f.sig.ident == name {
-                        let mut v = V { out: Vec::new() };
+                        let mut v = V { out: Vec::new(), guards: Vec::new(), vacants: Vec::new() };
                         v.visit_block(&f.block);
                         return v.out;
                     }
